@@ -144,6 +144,9 @@ func (e *G1) Unmarshal(m []byte) ([]byte, error) {
 
 	e.p.x.Unmarshal(m)
 	e.p.y.Unmarshal(m[numBytes:])
+	if !e.p.x.isCanonical() || !e.p.y.isCanonical() {
+		return nil, errors.New("bn256: coordinate exceeds modulus")
+	}
 	montEncode(&e.p.x, &e.p.x)
 	montEncode(&e.p.y, &e.p.y)
 
@@ -350,6 +353,9 @@ func (e *G2) Unmarshal(m []byte) ([]byte, error) {
 	e.p.x.y.Unmarshal(m[numBytes:])
 	e.p.y.x.Unmarshal(m[2*numBytes:])
 	e.p.y.y.Unmarshal(m[3*numBytes:])
+	if !e.p.x.x.isCanonical() || !e.p.x.y.isCanonical() || !e.p.y.x.isCanonical() || !e.p.y.y.isCanonical() {
+		return nil, errors.New("bn256: coordinate exceeds modulus")
+	}
 	montEncode(&e.p.x.x, &e.p.x.x)
 	montEncode(&e.p.x.y, &e.p.x.y)
 	montEncode(&e.p.y.x, &e.p.y.x)
